@@ -7,6 +7,9 @@ import (
 	"strconv"
 	"strings"
 	"testing"
+	"time"
+
+	"gosrc.io/xmpp/stanza"
 
 	"verif/hx"
 	"verif/vrt"
@@ -15,7 +18,7 @@ import (
 // C09: the handled-stanza count the client reports equals the number of stanzas
 // (message, presence, iq) it received on the stream-managed session.
 
-var c09alphabet = []string{"message", "presence", "iq", "r", "a", "features"}
+var c09alphabet = []string{"message", "presence", "iq", "iq-resp", "r", "a", "features"}
 
 func c09wire(sym string, n int) string {
 	switch sym {
@@ -25,6 +28,9 @@ func c09wire(sym string, n int) string {
 		return fmt.Sprintf("<presence from='peer@example.org/x' id='p%d'><show>away</show></presence>", n)
 	case "iq":
 		return fmt.Sprintf("<iq from='example.org' id='q%d' type='result'/>", n)
+	case "iq-resp":
+		// the answer to a request the client has pending through SendIQ (sent by c09play just before)
+		return fmt.Sprintf("<iq from='example.org' id='req%d' type='result'><query xmlns='jabber:iq:version'><name>x</name></query></iq>", n)
 	case "r":
 		return "<r xmlns='urn:xmpp:sm:3'/>"
 	case "a":
@@ -35,13 +41,24 @@ func c09wire(sym string, n int) string {
 	return ""
 }
 
-func c09isStanza(sym string) bool { return sym == "message" || sym == "presence" || sym == "iq" }
+func c09isStanza(sym string) bool {
+	return sym == "message" || sym == "presence" || sym == "iq" || sym == "iq-resp"
+}
 
 // c09play sends seq on connection sc, checking every answer to <r/>; it returns the
 // number of stanzas sent.
-func c09play(sc *srvConn, seq []string, base int, hist string) int {
+func c09play(cl *Client, sc *srvConn, seq []string, base int, hist string) int {
 	count := base
 	for i, sym := range seq {
+		if sym == "iq-resp" {
+			ctx, cancel := vrt.WithTimeout(vrt.Background(), time.Hour)
+			defer cancel()
+			iq := &stanza.IQ{Attrs: stanza.Attrs{Type: "get", Id: fmt.Sprintf("req%d", i), To: "example.org"}, Payload: &stanza.Version{}}
+			if _, err := cl.SendIQ(ctx, iq); err != nil {
+				vrt.Fail("C09|harness|sendiq", "%v", err)
+			}
+			vrt.WaitIdle()
+		}
 		sc.drainNew()
 		sc.send(c09wire(sym, i))
 		vrt.WaitIdle()
@@ -109,7 +126,7 @@ func c09body(first []string, maxLen int, withResume bool) func() {
 		}
 		vrt.WaitIdle()
 		sc := s.conn(0)
-		total := c09play(sc, seq, 0, hist)
+		total := c09play(s.cl, sc, seq, 0, hist)
 		if !withResume {
 			return
 		}
@@ -137,7 +154,7 @@ func c09body(first []string, maxLen int, withResume bool) func() {
 			}
 			vrt.Fail("C09|resume-count-wrong|"+nonStanza, "%s: <resume h=%q>, stanzas received on the session %d", hist, h, total)
 		}
-		c09play(s.conn(1), append(append([]string{}, seq2...), "r"), total, hist+" (after resumption)")
+		c09play(s.cl, s.conn(1), append(append([]string{}, seq2...), "r"), total, hist+" (after resumption)")
 	}
 }
 
